@@ -1160,7 +1160,17 @@ class sha256_stub:
             pre = b''.join(self.parts)
             d = _real_hashlib.sha256(pre).digest()
             if eng is not None and eng.hashes is not None:
-                eng.hashes.append((pre, len(pre), d))
+                if not any(isinstance(q, bytes) and q == pre for (q, m, g) in eng.hashes):
+                    # tie the concrete digest to the symbolic digests taken earlier on this path (same axioms, other order)
+                    dv = z3.BitVecVal(int.from_bytes(d, 'big'), 256)
+                    for (q, m, g) in eng.hashes:
+                        if isinstance(q, bytes):
+                            continue
+                        if m == len(pre) and m:
+                            eng.solver.add((q == z3.BitVecVal(int.from_bytes(pre, 'big'), 8 * m)) == (g == dv))
+                        else:
+                            eng.solver.add(g != dv)
+                    eng.hashes.append((pre, len(pre), d))
             return d
         pre = Bits.join([bytes_bits(p) for p in self.parts])
         n = pre.n // 8
